@@ -52,6 +52,7 @@ func guardedEffects(fn *ssa.Function, muts map[string]string) []string {
 }
 
 func c08(c *Ctx) {
+	c08retryLooksUpAgain(c)
 	r := c.R
 	r.Rule("PATH(tombstone): the delete handler treats a cache.DeletedFinalStateUnknown (delivered by value) like the object inside it: both reach the release, and no assertion to the pointer type exists")
 	c.Tombstone("PATH", loadawarePkg, "podAssignCache", "OnDelete", "unAssign")
